@@ -1,9 +1,10 @@
 (* C17 - Auto-approved Python scripts are inert; the analysed file is the one executed.
    Property theorems only; proofs are in Proofs/PyArgsP.v (visitor) and Proofs/C17P.v (command line).
+   The model follows /repo after the repairs bf22018 (script analysis) and d90b300 (_scan_options).
 
-   Three groups are proved here: C17_visitor* (the AST visitor skips no node), C17_args* (what the
-   decision reads from the command line, and its soundness with respect to CPython's own argv
-   grammar), C17_file* (which path is analysed).  Runtime inertness of an approved script is NOT a
+   Three groups are proved here: C17_visitor* (the AST visitor skips no node), C17_args* (soundness of an
+   approval with respect to CPython's own argv grammar, for EVERY token list, and what the decision
+   reads), C17_file* (which path is analysed).  Runtime inertness of an approved script is NOT a
    theorem: there is no model of CPython's object model; it is explored by harness/c17.py under an
    audit hook and reported in the evidence as coverage.inertness. *)
 From DippyV Require Import Base.Str Base.Sx Base.Tree Gen.Tables Model.PyArgs Proofs.PyArgsP Proofs.C17P.
@@ -11,40 +12,61 @@ From DippyV Require Import Base.Str Base.Sx Base.Tree Gen.Tables Model.PyArgs Pr
 (* ------------------------------------------------------------------ visitor *)
 
 (* No node anywhere in the tree is skipped, for every tree shape: if SafetyAnalyzer reports nothing then
-   every descendant passes the per-node check.  Hypothesis: Global nodes are leaves, as in Python's ast
-   (Global(identifier* names)); visit_Global is `pass` and would hide a subtree otherwise. *)
+   every descendant - paired with the one bit of context the visitor keeps, "I am the Name in the func
+   field of the Call above me" (_called_names) - passes the per-node check.  Hypothesis: Global nodes are
+   leaves, as in Python's ast (Global(identifier* names)); visit_Global is `pass`. *)
 Theorem C17_visitor : forall allow_print t,
-  global_leaf t -> visit allow_print t = [] -> forall d, In d (desc t) -> node_ok allow_print d.
+  global_leaf t -> visit allow_print false t = [] ->
+  forall callee d, In (callee, d) (descc false t) -> node_ok allow_print callee d.
 Proof. exact visitor. Qed.
 Print Assumptions C17_visitor.
 
-(* ... and conversely: the visitor reports nothing else *)
+(* descc is desc with that bit attached: every descendant is judged *)
+Theorem C17_visitor_all_nodes : forall allow_print t,
+  global_leaf t -> visit allow_print false t = [] ->
+  forall d, In d (desc t) -> exists callee, In (callee, d) (descc false t) /\ node_ok allow_print callee d.
+Proof. exact visitor_all_nodes. Qed.
+Print Assumptions C17_visitor_all_nodes.
+
 Theorem C17_visitor_exact : forall allow_print t,
-  global_leaf t -> (visit allow_print t = [] <-> forall d, In d (desc t) -> node_ok allow_print d).
+  global_leaf t ->
+  (visit allow_print false t = [] <-> forall callee d, In (callee, d) (descc false t) -> node_ok allow_print callee d).
 Proof. exact visitor_iff. Qed.
 Print Assumptions C17_visitor_exact.
 
-(* node_ok is exactly the test the visit_ method of the node's class performs itself *)
-Theorem C17_node_check : forall allow_print d, local allow_print d = [] <-> node_ok allow_print d.
+(* node_ok (extended by the repair: no uncalled Load of a dangerous builtin, no attribute or imported
+   name that is ESCAPE_ATTRS / named like a dangerous module) is exactly the visit_ method's own test *)
+Theorem C17_node_check : forall allow_print callee d, local allow_print callee d = [] <-> node_ok allow_print callee d.
 Proof. exact local_nil_iff. Qed.
 Print Assumptions C17_node_check.
 
-(* the violation list is the concatenation of the per-node reports in document order over the nodes
-   reached (everything, minus below Global and below `from . import x`, which is itself reported) *)
-Theorem C17_visitor_order : forall allow_print t, visit allow_print t = flat_map (local allow_print) (reach t).
+Theorem C17_visitor_order : forall allow_print t callee,
+  visit allow_print callee t = flat_map (fun p => local allow_print (fst p) (snd p)) (reach callee t).
 Proof. exact visit_reach. Qed.
 Print Assumptions C17_visitor_order.
 
-(* Full statement over ALL rose trees (no hypothesis):
-     forall ap t, visit ap t = [] -> forall d, In d (desc t) -> node_ok ap d
-   is false of the faithful model: visit_Global does not call generic_visit.  Not reachable from
-   ast.parse output (checked on every run by the harness: Global._fields == ('names',)). *)
+(* analyze_python_source = the visitor + the sibling check over imported_roots; and imported_roots misses
+   no import statement of an accepted tree *)
+Theorem C17_source : forall sibling allow_print t,
+  source_viols sibling allow_print t = [] <->
+  visit allow_print false t = [] /\ forall r, In r (roots t) -> sibling r = false.
+Proof. exact source_viols_nil. Qed.
+Print Assumptions C17_source.
+
+Theorem C17_imported_roots : forall allow_print t callee, global_leaf t -> visit allow_print callee t = [] ->
+  forall d, In d (desc t) ->
+    (kind_of d = $"Import" -> forall a, In a (children "names" d) -> In (root_of (attr_d "name" a)) (roots t)) /\
+    (kind_of d = $"ImportFrom" -> forall m, attr "module" d = Some m -> In (root_of m) (roots t)).
+Proof. exact roots_complete. Qed.
+Print Assumptions C17_imported_roots.
+
+(* Full statement over ALL rose trees (no hypothesis) is false of the faithful model: visit_Global does
+   not call generic_visit.  Not reachable from ast.parse output (checked on every run by the harness). *)
 Theorem C17_visitor_all_trees_refuted :
-  exists t, visit true t = [] /\ exists d, In d (desc t) /\ ~ node_ok true d.
+  exists t, visit true false t = [] /\ exists b d, In (b, d) (descc false t) /\ ~ node_ok true b d.
 Proof. exact global_leaf_needed. Qed.
 Print Assumptions C17_visitor_all_trees_refuted.
 
-(* ties to the tables of cli/python.py regenerated on every run *)
 Theorem C17_tables :
   PY_VISIT_METHODS = visit_kinds /\
   (forall m, In m PY_SAFE_MODULES -> mod_viols m = []) /\
@@ -56,88 +78,59 @@ Print Assumptions C17_tables.
 
 (* ------------------------------------------------------------------ arguments *)
 
-(* Refinement: for `python <own options> script args...` the decision is a function of the options and
-   the script token; no token after the script position is read. *)
-Theorem C17_args_script_form : forall resolve analyze cc pc t0 pre s post,
-  consumed pre -> is_dash s = false ->
-  classify resolve analyze cc pc (t0 :: pre ++ s :: post) = classify_script resolve analyze (cwd_of cc pc) t0 pre s.
-Proof. exact classify_script_form. Qed.
-Print Assumptions C17_args_script_form.
-
-Theorem C17_args_script_tail : forall resolve analyze cc pc t0 pre s post post',
-  consumed pre -> is_dash s = false ->
-  classify resolve analyze cc pc (t0 :: pre ++ s :: post) = classify resolve analyze cc pc (t0 :: pre ++ s :: post').
-Proof. exact args_script_tail. Qed.
-Print Assumptions C17_args_script_tail.
-
-(* -c CODE args / -m MODULE args: nothing after the argument is read (`python -c code -h` is not help) *)
-Theorem C17_args_cm_tail : forall resolve analyze cc pc t0 pre c a post post',
-  consumed pre -> mem_str c PY_CM_FLAGS = true ->
-  classify resolve analyze cc pc (t0 :: pre ++ c :: a :: post) =
-  classify resolve analyze cc pc (t0 :: pre ++ c :: a :: post').
-Proof. exact args_cm_tail. Qed.
-Print Assumptions C17_args_cm_tail.
-
-(* Full statement: "no token after the position where python's own options end influences the decision".
-   False when that position holds "-" (stdin): _own_options stops there, _find_script_path does not. *)
-Theorem C17_args_tail_refuted :
-  exists resolve analyze cc pc post post',
-    classify resolve analyze cc pc ($"python" :: dash :: post) <> classify resolve analyze cc pc ($"python" :: dash :: post').
-Proof. exact refuted_tail. Qed.
-Print Assumptions C17_args_tail_refuted.
-
-(* Soundness against CPython's own grammar (py_cmdline), for command lines whose own options are
-   whole-token configuration flags (-B -u -O ... / -W arg / -X arg) followed by a script, a help or
-   version flag, or -c / -m: an approval means CPython runs nothing, or `-m calendar`, or exactly the
-   analysed file, from its first line and without a REPL afterwards. *)
-Theorem C17_args_sound_partial : forall resolve analyze cc pc t0 pre tail,
-  is_dash t0 = false -> plain_pre pre -> prog_head tail ->
-  classify resolve analyze cc pc (t0 :: pre ++ tail) = PAllow ->
-  sound resolve analyze (cwd_of cc pc) (t0 :: pre ++ tail) (py_cmdline (t0 :: pre ++ tail)).
+(* Soundness against CPython's own grammar (py_cmdline), for EVERY token list and every file system
+   (oracles): an approval means CPython runs nothing (help, version, usage error), or the standard
+   calendar module with no REPL afterwards and no calendar.py/calendar/ in the command's directory, or
+   exactly the file whose analysis succeeded, from its first line and without a REPL afterwards.
+   No hypothesis is left: clustered / attached options, option arguments, "-", "--", -x, -i are all read
+   as CPython reads them (the previous C17_args_sound_refuted witnesses are now examples below). *)
+Theorem C17_args_sound : forall resolve analyze shadow cc pc tokens,
+  classify resolve analyze shadow cc pc tokens = PAllow ->
+  sound resolve analyze shadow (cwd_of cc pc) tokens (py_cmdline tokens).
 Proof. exact args_sound. Qed.
-Print Assumptions C17_args_sound_partial.
+Print Assumptions C17_args_sound.
 
-(* Full statement:  forall tokens, classify ... tokens = PAllow -> sound ... tokens (py_cmdline tokens).
-   False of the faithful model - and of the implementation (each witness is replayed on the real
-   classify and the real interpreter by harness/c17.py): clustered short options, -x, "-", "--", and
-   option ARGUMENTS mistaken for options, -m examined before -i. *)
-Theorem C17_args_sound_refuted :
-  unsound [$"python"; $"-"; $"s.py"] /\ unsound [$"python"; $"-Bi"; $"s.py"] /\
-  unsound [$"python"; $"-x"; $"s.py"] /\ unsound [$"python"; $"-Bc"; $"s.py"] /\
-  unsound [$"python"; $"-W"; $"-h"; $"evil.py"] /\ unsound [$"python"; $"-W"; $"-m"; $"calendar"] /\
-  unsound [$"python"; $"--"; $"-h"] /\ unsound [$"python"; $"-i"; $"-m"; $"calendar"].
-Proof.
-  exact (conj refuted_stdin (conj refuted_cluster_i (conj refuted_skip_line (conj refuted_cluster_c
-        (conj refuted_arg_help (conj refuted_arg_m (conj refuted_ddash refuted_i_m))))))).
-Qed.
-Print Assumptions C17_args_sound_refuted.
+(* the scanner and CPython agree on every option list of known options, or CPython stops with a message *)
+Theorem C17_scan_agrees : forall l fl i, known (sc_seen (scan i l)) = true ->
+  (has_info (sc_seen (scan i l)) = true -> inert (pyargs fl i l)) /\
+  (has_info (sc_seen (scan i l)) = false -> fl_version fl = false ->
+     inert (pyargs fl i l) \/ agrees fl i l (scan i l)).
+Proof. exact scan_agrees. Qed.
+Print Assumptions C17_scan_agrees.
 
-(* once -V / --version has been read CPython runs nothing, whatever follows *)
+(* With p the position where python's own options end (the script, or the argument of -c / -m), no token at
+   an index after p influences the decision: `python x.py --version`, `python -c code -h` are not help. *)
+Theorem C17_args_tail : forall resolve analyze shadow cc pc tokens tokens',
+  let p := sc_idx (scan 1 (tl tokens)) in
+  firstn (S p) tokens = firstn (S p) tokens' ->
+  classify resolve analyze shadow cc pc tokens = classify resolve analyze shadow cc pc tokens'.
+Proof. exact args_tail. Qed.
+Print Assumptions C17_args_tail.
+
 Theorem C17_version_inert : forall l fl i, fl_version fl = true -> inert (pyargs fl i l).
 Proof. exact version_inert. Qed.
 Print Assumptions C17_version_inert.
 
 (* ------------------------------------------------------------------ file *)
 
-(* the hook process's own working directory plays no role when the command's directory is given *)
-Theorem C17_file_cwd : forall resolve analyze c pc pc' tokens,
-  classify resolve analyze (Some c) pc tokens = classify resolve analyze (Some c) pc' tokens.
+Theorem C17_file_cwd : forall resolve analyze shadow c pc pc' tokens,
+  classify resolve analyze shadow (Some c) pc tokens = classify resolve analyze shadow (Some c) pc' tokens.
 Proof. exact file_process_cwd. Qed.
 Print Assumptions C17_file_cwd.
 
-(* the analysed path is resolve(cwd/script) and the file system is consulted about that path only *)
-Theorem C17_file_only_path : forall resolve an1 an2 cc pc tokens,
-  (forall s p, find_script (tl tokens) = Some s -> resolve (pjoin (cwd_of cc pc) s) = Some p -> an1 p = an2 p) ->
-  classify resolve an1 cc pc tokens = classify resolve an2 cc pc tokens.
+Theorem C17_file_only_path : forall resolve an1 an2 shadow cc pc tokens,
+  (forall s p, nth_error tokens (sc_idx (scan 1 (tl tokens))) = Some s ->
+               resolve (pjoin (cwd_of cc pc) s) = Some p -> an1 p = an2 p) ->
+  classify resolve an1 shadow cc pc tokens = classify resolve an2 shadow cc pc tokens.
 Proof. exact file_only_path. Qed.
 Print Assumptions C17_file_only_path.
 
-Theorem C17_file_relative : forall resolve analyze cwd pc t0 pre s post,
-  consumed pre -> is_dash s = false -> is_abs s = false -> suffixb [47] cwd = false ->
-  existsb (fun t => mem_str t PY_SAFE_FLAGS) pre = false ->
-  mem_str $"-c" (t0 :: pre) = false -> mem_str $"-m" (t0 :: pre) = false -> mem_str $"-i" (t0 :: pre) = false ->
-  blocked pre = false ->
-  classify resolve analyze (Some cwd) pc (t0 :: pre ++ s :: post) =
+Theorem C17_file_relative : forall resolve analyze shadow cwd pc tokens s,
+  let r := scan 1 (tl tokens) in
+  (2 <= length tokens)%nat -> known (sc_seen r) = true -> has_info (sc_seen r) = false -> sc_mode r = None ->
+  mem_str $"-i" (sc_seen r) = false -> mem_str $"-x" (sc_seen r) = false ->
+  nth_error tokens (sc_idx r) = Some s -> s <> dash -> is_abs s = false -> suffixb [47] cwd = false ->
+  classify resolve analyze shadow (Some cwd) pc tokens =
   match resolve (cwd ++ [47] ++ s) with
   | None => PExn
   | Some p => if analyze p then PAllow else PAsk
@@ -145,20 +138,22 @@ Theorem C17_file_relative : forall resolve analyze cwd pc t0 pre s post,
 Proof. exact file_relative. Qed.
 Print Assumptions C17_file_relative.
 
-(* an approval has exactly three sources: a help/version flag among python's own options,
-   `-m calendar`, or a successful analysis of resolve(cwd/script) *)
-Theorem C17_allow_sources : forall resolve analyze cc pc t0 rest,
-  classify resolve analyze cc pc (t0 :: rest) = PAllow ->
-  (exists h, In h (own_tail rest) /\ In h PY_SAFE_FLAGS) \/
-  (mem_str $"-m" (t0 :: own_tail rest) = true /\
-   nth_error (t0 :: rest) (S (index_of $"-m" (t0 :: own_tail rest))) = Some $"calendar") \/
-  (exists s p, find_script rest = Some s /\ resolve (pjoin (cwd_of cc pc) s) = Some p /\ analyze p = true).
+(* an approval has exactly three sources *)
+Theorem C17_allow_sources : forall resolve analyze shadow cc pc t0 r0 rest,
+  let tokens := t0 :: r0 :: rest in let r := scan 1 (r0 :: rest) in
+  classify resolve analyze shadow cc pc tokens = PAllow ->
+  known (sc_seen r) = true /\
+  ((exists o, In o (sc_seen r) /\ In o PY_INFO_OPTIONS) \/
+   (sc_mode r = Some 109 /\ sc_arg r = Some $"calendar" /\ shadow (cwd_of cc pc) = false /\
+    mem_str $"-i" (sc_seen r) = false) \/
+   (sc_mode r = None /\ mem_str $"-i" (sc_seen r) = false /\ mem_str $"-x" (sc_seen r) = false /\
+    exists s p, nth_error tokens (sc_idx r) = Some s /\ s <> dash /\
+                resolve (pjoin (cwd_of cc pc) s) = Some p /\ analyze p = true)).
 Proof. exact allow_inv. Qed.
 Print Assumptions C17_allow_sources.
 
 (* ------------------------------------------------------------------ non-vacuity *)
 
-(* `import json` + `print(len("x"))` as dumped by the harness (abridged): accepted, and Global-free *)
 Definition ex_tree : tree :=
   T $"Module" [] []
     [($"body", T $"Import" [] [] [($"names", T $"alias" [($"name", $"json")] [] [])]);
@@ -168,32 +163,32 @@ Definition ex_tree : tree :=
             ($"args", T $"Call" [] []
                [($"func", T $"Name" [($"id", $"len")] [] [($"ctx", T $"Load" [] [] [])]);
                 ($"args", T $"Constant" [($"value", $"x")] [] [])])])])].
-Example ex_tree_accepted : visit true ex_tree = [] /\ global_leaf ex_tree.
+Example ex_tree_accepted : visit true false ex_tree = [] /\ global_leaf ex_tree /\ roots ex_tree = [$"json"].
 Proof.
-  split; [vm_compute; reflexivity|]. intros d Hd Hk. cbn in Hd.
+  split; [vm_compute; reflexivity|]. split; [|vm_compute; reflexivity]. intros d Hd Hk. cbn in Hd.
   repeat (destruct Hd as [<-|Hd]; [try reflexivity; discriminate Hk|]). destruct Hd.
 Qed.
-(* the same with print disallowed, and with eval nested in an argument position: rejected *)
-Example ex_tree_print : visit false ex_tree = [(KBuiltin, $"print")].
+Example ex_tree_shadowed : source_viols (fun r => str_eqb r $"json") true ex_tree = [(KShadow, $"json")].
 Proof. vm_compute. reflexivity. Qed.
-Example ex_nested_eval :
-  visit true (T $"Expr" [] [] [($"value", T $"Call" [] []
-     [($"func", T $"Name" [($"id", $"len")] [] []);
-      ($"args", T $"ListComp" [] [] [($"elt", T $"Call" [] [] [($"func", T $"Name" [($"id", $"eval")] [] [])])])])])
-  = [(KBuiltin, $"eval")].
-Proof. vm_compute. reflexivity. Qed.
+(* `f = open` (a Load of the name, not a call) and `json.codecs` are now reported; `open = 1` (Store) is not *)
+Example ex_alias :
+  visit true false (T $"Assign" [] [] [($"targets", T $"Name" [($"id", $"f")] [] [($"ctx", T $"Store" [] [] [])]);
+                                       ($"value", T $"Name" [($"id", $"open")] [] [($"ctx", T $"Load" [] [] [])])])
+    = [(KBuiltin, $"open")] /\
+  visit true false (T $"Attribute" [($"attr", $"codecs")] [] [($"value", T $"Name" [($"id", $"json")] [] [($"ctx", T $"Load" [] [] [])])])
+    = [(KEscapeAttr, $"codecs")] /\
+  visit true false (T $"Assign" [] [] [($"targets", T $"Name" [($"id", $"open")] [] [($"ctx", T $"Store" [] [] [])])]) = [].
+Proof. vm_compute. repeat split. Qed.
 
-Example ex_consumed : consumed [$"-u"; $"-W"; $"ignore"; $"-X"; $"dev"].
-Proof.
-  apply cons_flag; try (vm_compute; reflexivity); [discriminate|].
-  apply cons_arg; try (vm_compute; reflexivity). apply cons_arg; try (vm_compute; reflexivity). constructor.
-Qed.
-Example ex_plain : plain_pre [$"-u"; $"-W"; $"ignore"; $"-B"].
-Proof. apply pp_flag; [cbn; tauto|]. apply pp_arg; [cbn; tauto|reflexivity|]. apply pp_flag; [cbn; tauto|constructor]. Qed.
-(* `python -u s.py --version`: analysed as the script, and approved only because the analysis says so *)
-Example ex_script_version :
-  classify w_resolve w_analyze (Some $"/w") $"/" [$"python"; $"-u"; $"s.py"; $"--version"] = PAllow /\
-  classify w_resolve (fun _ => false) (Some $"/w") $"/" [$"python"; $"-u"; $"s.py"; $"--version"] = PAsk /\
-  classify w_resolve w_analyze (Some $"/w") $"/" [$"python"; $"-c"; $"1"; $"-h"] = PAsk /\
+(* the former counterexamples: all ask now; and the placements the property names *)
+Example ex_former_witnesses :
+  w_classify [$"python"; $"-"; $"s.py"] = PAsk /\ w_classify [$"python"; $"-Bi"; $"s.py"] = PAsk /\
+  w_classify [$"python"; $"-x"; $"s.py"] = PAsk /\ w_classify [$"python"; $"-Bc"; $"s.py"] = PAsk /\
+  w_classify [$"python"; $"-W"; $"-h"; $"evil.py"] = PAsk /\ w_classify [$"python"; $"-W"; $"-m"; $"calendar"] = PAsk /\
+  w_classify [$"python"; $"--"; $"-h"] = PAsk /\ w_classify [$"python"; $"-i"; $"-m"; $"calendar"] = PAsk /\
+  w_classify [$"python"; $"-u"; $"s.py"; $"--version"] = PAllow /\
+  w_classify [$"python"; $"-u"; $"evil.py"; $"--version"] = PAsk /\
+  w_classify [$"python"; $"-c"; $"1"; $"-h"] = PAsk /\ w_classify [$"python"; $"-Bm"; $"calendar"] = PAllow /\
+  w_classify [$"python"; $"-BV"] = PAllow /\
   py_cmdline [$"python"; $"-u"; $"s.py"; $"--version"] = RFile 2 fl0.
 Proof. vm_compute. repeat split. Qed.
